@@ -1,5 +1,6 @@
 import PdeVerif.Json
 import PdeVerif.Model.Interp
+import PdeVerif.Model.InterpGrid
 namespace PdeVerif.Drv.C16
 open Lean PdeVerif PdeVerif.Interp
 
@@ -92,6 +93,52 @@ def insert (j : Json) : Except String Json := do
         ("before", jQ (integral sizes vol (inner data))), ("after", jQ (integral sizes vol (inner d)))]
   pure (Json.arr ((comps.zip amounts).map one).toArray)
 
+/-- {"eps","ghost","fill":null|number,"axes":[source axes],"shape":[shape of "data"],"data":[flat],
+"axes2":[target axes]} -> null (DomainError) | the data of the new field in C order
+(`interpToGrid`, the model of `ScalarField.interpolate_to_grid` for a target of the same class) -/
+def togrid (j : Json) : Except String Json := do
+  let eps ← fldQ j "eps"
+  let ghost ← fldB j "ghost"
+  let axes ← fldAxes j "axes"
+  let axes2 ← fldAxes j "axes2"
+  let shape ← fldIs j "shape"
+  let flat ← fldQs j "data"
+  let fill : Option Rat ← (match fldOpt j "fill" with
+    | some .null | none => pure none
+    | some v => do pure (some (← getQ v)))
+  match interpToGrid eps ghost fill axes (arrFn shape flat.toArray) axes2 with
+  | none => pure Json.null
+  | some vs => pure (jQs vs)
+
+def getSide (j : Json) : Except String (Side Rat) := do
+  match j with
+  | Json.arr #[k, v] =>
+    let kind ← getS k
+    let q ← getQ v
+    if kind == "value" then pure (Side.value q)
+    else if kind == "derivative" then pure (Side.derivative q)
+    else throw s!"unknown kind of condition {kind}"
+  | _ => throw "side: expected [kind, number]"
+
+/-- {"axes":[..],"sides":[null (periodic) | [[kind,c] lower,[kind,c] upper]..],"data":[[flat component]..]}
+-> per component the padded array `padFull` (shape + 2 per axis, C order) -/
+def pad (j : Json) : Except String Json := do
+  let axes ← fldAxes j "axes"
+  let sidesJ ← getL pure (← fld j "sides")
+  if sidesJ.length ≠ axes.length then throw "sides: one entry per axis expected"
+  let pas ← (axes.zip sidesJ).mapM (fun ((ax, sj) : Axis Rat × Json) => do
+    match sj with
+    | Json.null => pure ({ ax := ax, lower := Side.value 0, upper := Side.value 0 } : PadAxis Rat)
+    | Json.arr #[l, u] => pure { ax := ax, lower := (← getSide l), upper := (← getSide u) }
+    | _ => throw "sides: null or [lower, upper] expected")
+  let comps ← getL (getL getQ) (← fld j "data")
+  let sizes := axes.map (·.size)
+  let out := comps.map (fun flat =>
+    let f := padFull pas (arrFn sizes flat.toArray)
+    jQs ((cells (sizes.map (· + 2))).map f))
+  pure (Json.arr out.toArray)
+
 def handlers : List (String × Handler) :=
-  [("c16.axis", axis), ("c16.interp", interp), ("c16.insert", insert)]
+  [("c16.axis", axis), ("c16.interp", interp), ("c16.insert", insert), ("c16.togrid", togrid),
+   ("c16.pad", pad)]
 end PdeVerif.Drv.C16
